@@ -5,6 +5,9 @@
 //!   outer p = drain `pending()`, w = drain `wait()` (needs a pre delivery), f = `forever().next()`
 //!           (one item; needs a pre delivery), c = `close()` of ANOTHER instance (watching SIGWINCH): a delivery for this
 //!           instance while the library is busy with a different one, a = `add_signal(SIGUSR2)` with SIGUSR2 delivered at the boundary, d = `drop(instance)`
+//!           h = the library's HANDLER itself, running for a delivery of SIGUSR1, single-stepped (an action registered
+//!           before the instance turns the trap flag on inside the handler); SIGUSR2 is delivered - really nested - at every
+//!           boundary;  H = the same with `close()` of ANOTHER instance (watching SIGWINCH) called at every boundary
 //!   pre   deliveries made before the outer call: a string over {s, t} (s = SIGUSR1, t = SIGUSR2)
 //!
 //! The outer call is single-stepped (x86 trap flag).  At EVERY trap the process forks: the child
@@ -51,6 +54,34 @@ static INNER_SEQ: AtomicUsize = AtomicUsize::new(0);
 static INNER_SIG: AtomicUsize = AtomicUsize::new(libc::SIGUSR1 as usize);
 // did the delivery made in the child write a wake-up byte into this instance's self-pipe?
 static INNER_WOKE: AtomicBool = AtomicBool::new(false);
+// outer h / H: the trap flag is switched on by an action inside the handler; H: the event is a close() of OTHER
+static TRAP_IN_HANDLER: AtomicBool = AtomicBool::new(false);
+static INNER_CLOSE: AtomicBool = AtomicBool::new(false);
+static mut OTHER: Option<signal_hook::iterator::Handle> = None;
+static mut OTHER_INST: Option<signal_hook::iterator::Signals> = None;
+// the consumer thread blocked in wait() on the other instance: 0 not started, 1 running, 2 returned (+ what it yielded)
+static OTHER_STATE: AtomicUsize = AtomicUsize::new(0);
+static OTHER_YIELDED: AtomicUsize = AtomicUsize::new(0);
+
+/// H: a consumer of the OTHER instance goes to sleep in wait() on a thread of its own, then close() is called for it here
+fn close_other_with_blocked_consumer() {
+    unsafe {
+        if let Some(mut inst) = (*std::ptr::addr_of_mut!(OTHER_INST)).take() {
+            OTHER_STATE.store(1, Ordering::SeqCst);
+            std::thread::spawn(move || {
+                let n = inst.wait().count();
+                OTHER_YIELDED.store(n, Ordering::SeqCst);
+                OTHER_STATE.store(2, Ordering::SeqCst);
+                std::mem::forget(inst);
+            });
+            // let it reach the blocking read (if it has not, it sees the flag instead: a missed case, never a wrong one)
+            std::thread::sleep(std::time::Duration::from_millis(20));
+        }
+        if let Some(h) = (*std::ptr::addr_of!(OTHER)).as_ref() {
+            h.close();
+        }
+    }
+}
 static CHILD_K: AtomicUsize = AtomicUsize::new(0);
 // children that died (blocked or crashed): after 12 of them the rest of the sweep is skipped - the
 // point is made and every blocked child costs its alarm
@@ -104,7 +135,11 @@ extern "C" fn on_trap(_sig: libc::c_int, _info: *mut libc::siginfo_t, ctx: *mut 
         CHILD_K.store(step, Ordering::Relaxed);
         ARMED.store(false, Ordering::Relaxed);
         unsafe { libc::alarm(3) };
-        queue(INNER_SIG.load(Ordering::Relaxed) as i32, INNER_SEQ.load(Ordering::Relaxed));
+        if INNER_CLOSE.load(Ordering::Relaxed) {
+            close_other_with_blocked_consumer();
+        } else {
+            queue(INNER_SIG.load(Ordering::Relaxed) as i32, INNER_SEQ.load(Ordering::Relaxed));
+        }
         INNER_WOKE.store(pipe_bytes() > before, Ordering::Relaxed);
         let uc = ctx as *mut libc::ucontext_t;
         unsafe { (*uc).uc_mcontext.gregs[libc::REG_EFL as usize] &= !TF };
@@ -365,6 +400,124 @@ where
     out(&format!("E {}\n", STEP.load(Ordering::Relaxed)));
 }
 
+/// The handler itself single-stepped (outer h / H).  One delivery of SIGUSR1 (sequence 1); at every boundary inside the
+/// handler - from the first registered action, which switches the trap flag on, to the return into the kernel - the
+/// child delivers SIGUSR2 (sequence 2; h) or closes another instance (H).  Then: wait() must not block, SIGUSR1 and (h)
+/// SIGUSR2 come out exactly once each with the records as sent; (H) the other instance is closed, its wait() returns
+/// at once and yields nothing; a later delivery of SIGUSR1 wakes wait() and comes out once.
+fn sweep_handler<E>(exf: E, raw: bool, close: bool)
+where
+    E: Exfiltrator,
+    E::Output: Item,
+{
+    let _first = unsafe {
+        signal_hook_registry::register(S, || {
+            if ARMED.load(Ordering::Relaxed) && TRAP_IN_HANDLER.load(Ordering::Relaxed) && !IS_CHILD.load(Ordering::Relaxed) {
+                trap_flag_on();
+            }
+        })
+    }
+    .unwrap();
+    let other = signal_hook::iterator::Signals::new(&[libc::SIGWINCH]).unwrap();
+    let other_handle = other.handle();
+    unsafe {
+        *std::ptr::addr_of_mut!(OTHER) = Some(other.handle());
+        *std::ptr::addr_of_mut!(OTHER_INST) = Some(other);
+    }
+    let fds0 = open_fds();
+    let mut signals = SignalsInfo::with_exfiltrator(&[S, T], exf).unwrap();
+    let new: Vec<i32> = open_fds().into_iter().filter(|fd| !fds0.contains(fd)).collect();
+    assert_eq!(new.len(), 2, "the instance opened {:?}", new);
+    READ_FD.store(new[0] as usize, Ordering::Relaxed);
+    WRITE_FD.store(new[1] as usize, Ordering::Relaxed);
+    INNER_SIG.store(T as usize, Ordering::Relaxed);
+    INNER_SEQ.store(2, Ordering::Relaxed);
+    INNER_CLOSE.store(close, Ordering::Relaxed);
+    STEP.store(0, Ordering::Relaxed);
+    let parent_pid = unsafe { libc::getpid() };
+    TRAP_IN_HANDLER.store(true, Ordering::Relaxed);
+    ARMED.store(true, Ordering::Relaxed);
+    queue(S, 1);
+    // (the trap flag is gone with the return from the handler: the interrupted context never had it)
+    ARMED.store(false, Ordering::Relaxed);
+    TRAP_IN_HANDLER.store(false, Ordering::Relaxed);
+    let child = IS_CHILD.load(Ordering::Relaxed);
+    let k = if child { CHILD_K.load(Ordering::Relaxed) } else { STEP.load(Ordering::Relaxed) + 1 };
+    if !child {
+        // the boundary after the handler has returned
+        unsafe { libc::alarm(3) };
+        if close {
+            close_other_with_blocked_consumer();
+        } else {
+            queue(T, 2);
+        }
+    }
+    let mut bad: Vec<String> = Vec::new();
+    let mut got: Got = Vec::new();
+    for x in signals.wait() {
+        got.push(x.describe());
+    }
+    for x in signals.pending() {
+        got.push(x.describe());
+    }
+    let count = |g: &Got, sig: i32, seq: usize| g.iter().filter(|e| e.0 == sig && (!raw || e.1.map(|x| x.2) == Some(seq))).count();
+    if count(&got, S, 1) == 0 {
+        bad.push("LOST the delivery of SIGUSR1 whose handler was interrupted was not reported".to_string());
+    }
+    if !close && count(&got, T, 2) == 0 {
+        bad.push("LOST the delivery of SIGUSR2 that arrived inside the handler was not reported".to_string());
+    }
+    let expect = if close { 1 } else { 2 };
+    if got.len() != expect || got.iter().any(|e| e.0 != S && e.0 != T) || (close && got.iter().any(|e| e.0 == T)) {
+        bad.push(format!("EXTRA {} deliveries, the iterator yielded{}", expect, show(&got)));
+    }
+    if raw {
+        for e in &got {
+            if let Some((code, pid, seq)) = e.1 {
+                // (the first delivery was sent before the fork, by the parent process)
+                let sender = if seq == 1 { parent_pid } else { unsafe { libc::getpid() } };
+                if code != SI_QUEUE || pid != sender {
+                    bad.push(format!("FIELD record {} says code {} pid {} (sent: SI_QUEUE by process {})", seq, code, pid, sender));
+                }
+            }
+        }
+    }
+    if close {
+        // the consumer that was asleep in wait() on the other instance when close() was called must come back
+        let t0 = std::time::Instant::now();
+        while OTHER_STATE.load(Ordering::SeqCst) != 2 && t0.elapsed() < std::time::Duration::from_millis(1500) {
+            std::thread::sleep(std::time::Duration::from_millis(2));
+        }
+        if OTHER_STATE.load(Ordering::SeqCst) != 2 {
+            bad.push("STRANDED a consumer asleep in wait() on the other instance was not woken by close() (1.5 s)".to_string());
+        } else if OTHER_YIELDED.load(Ordering::SeqCst) != 0 {
+            bad.push(format!("EXTRA the closed instance yielded {} signals nobody delivered", OTHER_YIELDED.load(Ordering::SeqCst)));
+        }
+        if !other_handle.is_closed() {
+            bad.push("STICKY the other instance does not say closed after close() returned".to_string());
+        }
+    }
+    queue(S, 3);
+    let mut later: Got = Vec::new();
+    for x in signals.wait() {
+        later.push(x.describe());
+    }
+    for x in signals.pending() {
+        later.push(x.describe());
+    }
+    if count(&later, S, 3) == 0 {
+        bad.push("LOST a later delivery of SIGUSR1 was not reported".to_string());
+    }
+    if later.len() != 1 {
+        bad.push(format!("EXTRA after one later delivery the iterator yielded{}", show(&later)));
+    }
+    out(&format!("K {} {} | got{} | later{}\n", k, if bad.is_empty() { "OK".to_string() } else { format!("BAD {}", bad.join("; ")) }, show(&got), show(&later)));
+    if child {
+        unsafe { libc::_exit(0) };
+    }
+    out(&format!("E {}\n", STEP.load(Ordering::Relaxed)));
+}
+
 /// `add_signal(SIGUSR2)` single-stepped on an instance that watches SIGUSR1; SIGUSR2 already has the library's
 /// handler (a flag is registered for it), so a delivery of it is harmless at any instant.  The child delivers
 /// SIGUSR2 at the boundary: from the instant this instance's action runs for it (it writes the wake-up byte) the
@@ -525,6 +678,10 @@ fn main() {
     let pre = if a[3] == "-" { "" } else { a[3].as_str() };
     if a[2] == "d" {
         if a[1] == "r" { sweep_drop(WithRawSiginfo::default()) } else { sweep_drop(SignalOnly::default()) }
+        return;
+    }
+    if a[2] == "h" || a[2] == "H" {
+        if a[1] == "r" { sweep_handler(WithRawSiginfo::default(), true, a[2] == "H") } else { sweep_handler(SignalOnly::default(), false, a[2] == "H") }
         return;
     }
     if a[2] == "a" {
